@@ -196,4 +196,32 @@ theorem heat_writeRow_width {α : Type} {A : Arith α} {Dom : Int → Prop} {Uni
     rw [hp, heatRow_width env name p cells ht hall, hlen]
     omega
 
+/-! ### what a drawn bar-graph row looks like, what a render of the histogram leaves on the screen -/
+
+section
+variable {α : Type} {A : Arith α} {Dom : Int → Prop} {Unit : α → Prop} {le : α → α → Prop}
+
+/-- the bar of one value of a grouped row: the glyphs of `BarWrite(Scale(v, 0, max), BarSize)` – at most `BarSize` -/
+theorem bars_bar_shape (U : UnitLaws A Dom Unit le) (env : Env) (c : BarCfg) (v : Int) (hd : Dom v) (hm : Dom c.max)
+    (hb : 0 ≤ c.barSize) (hb' : c.barSize ≤ 1000000000000000) :
+    ∃ rs, barWriteR A env (scale A c.scaler v 0 c.max) c.barSize = .ok rs ∧ c.barBytes A env v = rs.flatMap encodeRune ∧
+      (rs.length : Int) = glyphCount A env c.barSize (scale A c.scaler v 0 c.max) ∧ (rs.length : Int) ≤ c.barSize := by
+  have hu := U.scale_unit c.scaler hd U.dom_zero hm
+  obtain ⟨rs, hrs, hl⟩ := U.barWriteR_ok env hu hb hb'
+  have hle := (U.glyphCount_le env hu hb hb').2
+  refine ⟨rs, hrs, ?_, hl, by omega⟩
+  unfold BarCfg.barBytes barWrite
+  rw [hrs]; rfl
+
+/-- the rows stored and the state after one render of the histogram -/
+theorem histo_render_rows (env : Env) (h : Histo) (items : List (Bytes × Int)) (total atLeast : Int)
+    (hfit : (histoShown items atLeast).length ≤ h.items.length) (i : Nat) (it : Bytes × Int) (hi : (histoShown items atLeast)[i]? = some it) :
+    (h.stateAfterAll env (histoOutputOps items total atLeast)).items[i]? = some (some it) := by
+  unfold histoOutputOps
+  rw [histo_stateAfterAll_cons]
+  have := (histo_lineOps_items env (histoShown items atLeast) 0 (h.stateAfter env (.total total))
+    (by rw [Nat.zero_add]; exact hfit)).1 i it hi
+  rwa [Nat.zero_add] at this
+
+end
 end Rare.C14
